@@ -147,14 +147,15 @@ def run(ctx):
             ctx.log("attack script %s is not a valid attack for the current specification (skipped)" % os.path.basename(path))
     if not q:
         # fresh attacks found by TLC in this run
-        for w in ["quorum", "vote_once", "rule2", "rule2_tc_hqr", "timeout_bump", "commit_consecutive", "qc_after_payload"]:
+        for w in ["quorum", "vote_once", "rule2", "rule2_tc_hqr", "timeout_bump", "commit_consecutive", "qc_after_payload", "stale_qc_ignored"]:
             late = w == "qc_after_payload"
-            over = dict(LatePayload="TRUE", Honest="{0,1,2}") if late else {}
-            r = simulate(ctx, "attack-search-" + w, over, 12000 if late else 3000, 200 if late else 160, weaken=w, invs=["AgreementJ"], timeout=600 if late else 400)
+            byz3 = w in ("qc_after_payload", "stale_qc_ignored")     # found with authority 3 (leader of rounds 3, 7) Byzantine
+            over = dict(LatePayload="TRUE", Honest="{0,1,2}") if late else (dict(Honest="{0,1,2}") if byz3 else {})
+            r = simulate(ctx, "attack-search-" + w, over, 12000 if byz3 else 3000, 200 if byz3 else 160, weaken=w, invs=["AgreementJ"], timeout=600 if byz3 else 400)
             m = re.search(r'<<"ATTACK", "(.*)">>', r["out"])
             if m:
                 j = json.loads(m.group(1).replace('\\"', '"'))
-                s = {"weaken": w, "n": 4, "stakes": [1, 1, 1, 1], "honest": [0, 1, 2] if late else [1, 2, 3], "maxround": 10, "acts": j["acts"]}
+                s = {"weaken": w, "n": 4, "stakes": [1, 1, 1, 1], "honest": [0, 1, 2] if byz3 else [1, 2, 3], "maxround": 10, "acts": j["acts"]}
                 p = ctx.path("fresh-attack-%s.json" % w)
                 json.dump(s, open(p, "w"))
                 if validate_script(ctx, p, s):
